@@ -75,7 +75,7 @@ func e2eRunCase(w *bufio.Writer, rng *rand.Rand, name string, nOps int, st *e2eS
 	cfgBuf := buf
 	a := rqBareAssoc(cfgBuf, idata, peerTSN)
 	a.maxReassemblyQueueEntries = maxEntries
-	defer a.close() //nolint:errcheck
+	defer a.close()                 //nolint:errcheck
 	drainAccept := rng.Intn(3) != 0 // otherwise the accept channel fills up after 16 streams
 	nStreams := 1 + rng.Intn(4)
 	if !drainAccept {
